@@ -43,6 +43,7 @@ def run(prog, tier):
     check_guard_sibling(R, prog)
     check_registry(R, prog)
     check_count_formula(R, prog)
+    check_edge_side(R, prog)
     return R
 
 
@@ -434,3 +435,134 @@ def check_count_formula(R, prog):
             R.ok("COUNT-FORMULA", "%s refuses a negative %s" % (name, p), fi.key, nontrivial=False)
         else:
             R.bad(F("COUNT-FORMULA", fi, "%s negative %s" % (name, p), "a negative %s must be refused with ValueError" % p))
+
+
+# ---------------------------------------------------------------------------- which side does an endpoint come from
+def check_edge_side(R, prog):
+    """EDGE-SIDE: in a function that builds `G = BipartiteGraph(a, b)`, the first argument of every G.add_edge is a left vertex
+    (a value in 1..a) and the second a right vertex (1..b).  Sides are followed through G.parts(), loops, samples, list
+    repetition, indexing, randint / range bounds, `divmod` decoding of a pair index and 0-based -> 1-based shifts.  A known wrong
+    side is a finding (transposed / out-of-range edges); an endpoint whose side cannot be followed is left undecided."""
+    n = 0
+    m = prog.modules["cnfgen.graphs"]
+    for q, fi in sorted(m.functions.items()):
+        ctor = None
+        for st in stmts_in(fi.node):
+            if isinstance(st, ast.Assign) and len(st.targets) == 1 and isinstance(st.targets[0], ast.Name) and isinstance(st.value, ast.Call) \
+                    and call_name(st.value) == "BipartiteGraph" and len(st.value.args) >= 2:
+                ctor = (st.targets[0].id, src(st.value.args[0]), src(st.value.args[1]))
+        if ctor is None or ctor[1] == ctor[2]:
+            continue
+        g, a, b = ctor
+        env = {}          # name -> ('elem'|'list'|'pairs'|'pairlist'|'index', side[, base]) ; side 'L'/'R', base 0 or 1
+
+        def dim(text):
+            return "L" if text == a else ("R" if text == b else None)
+
+        def kind(e):
+            """('elem', side, base) | ('list', side) | ('pair', s1, s2) | ('pairlist', s1, s2) | ('index',) | None"""
+            if isinstance(e, ast.Name):
+                return env.get(e.id)
+            if isinstance(e, ast.Call):
+                cn = call_name(e) or ""
+                if cn in ("sorted", "list", "tuple", "iter", "reversed") and e.args:
+                    return kind(e.args[0])
+                if cn in ("random.sample",) and e.args:
+                    return kind(e.args[0])
+                if cn == "random.choice" and e.args:
+                    k = kind(e.args[0])
+                    return ("elem", k[1], 1) if k and k[0] == "list" else (("pair", k[1], k[2]) if k and k[0] == "pairlist" else None)
+                if cn in ("random.randint",) and len(e.args) == 2:
+                    lo, hi = src(e.args[0]), src(e.args[1])
+                    if lo == "1" and dim(hi):
+                        return ("elem", dim(hi), 1)
+                    if lo == "0" and hi.endswith(" - 1") and dim(hi[:-4]):
+                        return ("elem", dim(hi[:-4]), 0)
+                if cn == "range":
+                    if len(e.args) == 2 and src(e.args[0]) == "1" and src(e.args[1]).endswith(" + 1") and dim(src(e.args[1])[:-4]):
+                        return ("list", dim(src(e.args[1])[:-4]), 1)
+                    if len(e.args) == 1 and dim(src(e.args[0])):
+                        return ("list", dim(src(e.args[0])), 0)
+                    if len(e.args) == 1 and src(e.args[0]) in ("%s * %s" % (a, b), "%s * %s" % (b, a)):
+                        return ("indexlist",)
+                if cn == "divmod" and len(e.args) == 2:
+                    k = kind(e.args[0])
+                    d = dim(src(e.args[1]))
+                    if k == ("index",) and d:
+                        other = "R" if d == "L" else "L"
+                        return ("pair0", other, d)       # quotient < (a*b)/X  = size of the other side, remainder < X
+            if isinstance(e, ast.BinOp) and isinstance(e.op, ast.Mult):
+                k = kind(e.left)
+                if k and k[0] == "list":
+                    return k
+            if isinstance(e, ast.Subscript):
+                k = kind(e.value)
+                if k and k[0] == "list":
+                    return ("elem", k[1], k[2] if len(k) > 2 else 1)
+            if isinstance(e, ast.BinOp) and isinstance(e.op, ast.Add):
+                for x, y in ((e.left, e.right), (e.right, e.left)):
+                    if src(y) == "1":
+                        k = kind(x)
+                        if k and k[0] == "elem" and k[2] == 0:
+                            return ("elem", k[1], 1)
+                        if isinstance(x, ast.BinOp) and isinstance(x.op, ast.Mod) and dim(src(x.right)):
+                            return ("elem", dim(src(x.right)), 1)
+            if isinstance(e, ast.ListComp) and isinstance(e.elt, ast.Tuple) and len(e.elt.elts) == 2 and len(e.generators) == 2:
+                sides = {}
+                for gen in e.generators:
+                    k = kind(gen.iter)
+                    if k and k[0] == "list" and isinstance(gen.target, ast.Name):
+                        sides[gen.target.id] = k[1]
+                s1, s2 = [sides.get(src(x)) for x in e.elt.elts]
+                if s1 and s2:
+                    return ("pairlist", s1, s2)
+            return None
+
+        def bind(target, k):
+            if k is None:
+                return
+            if isinstance(target, ast.Name):
+                env[target.id] = k
+            elif isinstance(target, ast.Tuple) and len(target.elts) == 2 and k[0] in ("pair", "pair0"):
+                base = 0 if k[0] == "pair0" else 1
+                for t, sd in zip(target.elts, k[1:3]):
+                    if isinstance(t, ast.Name):
+                        env[t.id] = ("elem", sd, base)
+        verdicts = []          # (call, kinds) evaluated where the call stands, with the bindings made so far (source order)
+        for st in stmts_in(fi.node):
+            if not isinstance(st, (ast.For, ast.While, ast.If, ast.Try, ast.With, ast.FunctionDef)):
+                for x in ast.walk(st):
+                    if isinstance(x, ast.Call) and method_name(x) == "add_edge" and src(x.func.value) == g and len(x.args) == 2:
+                        verdicts.append((x, [kind(y) for y in x.args]))
+            if isinstance(st, ast.Assign) and len(st.targets) == 1:
+                t, v = st.targets[0], st.value
+                if isinstance(t, ast.Tuple) and isinstance(v, ast.Call) and method_name(v) == "parts" and src(v.func.value) == g and len(t.elts) == 2:
+                    for x, sd in zip(t.elts, "LR"):
+                        if isinstance(x, ast.Name):
+                            env[x.id] = ("list", sd, 1)
+                else:
+                    bind(t, kind(v))
+            elif isinstance(st, ast.For):
+                k = kind(st.iter)
+                if k and k[0] == "list":
+                    bind(st.target, ("elem", k[1], k[2] if len(k) > 2 else 1))
+                elif k and k[0] == "pairlist":
+                    bind(st.target, ("pair", k[1], k[2]))
+                elif k == ("indexlist",):
+                    bind(st.target, ("index",))
+        for c, ks in verdicts:
+            n += 1
+            sides = [(k[1], k[2]) if k and k[0] == "elem" else None for k in ks]
+            inst = "%s: %s" % (q, src(c))
+            wrong = [i for i, (sd, want) in enumerate(zip(sides, "LR")) if sd is not None and (sd[0] != want or sd[1] != 1)]
+            if wrong:
+                i = wrong[0]
+                R.bad(F("EDGE-SIDE", fi, "%s endpoint %d of %s" % (q, i + 1, src(c)),
+                        "`%s` is a %s vertex number (%s), but add_edge takes (left in 1..%s, right in 1..%s): the edge is transposed or "
+                        "falls outside the bipartition whenever %s != %s" % (src(c.args[i]), {"L": "left", "R": "right"}[sides[i][0]],
+                                                                               "1-based" if sides[i][1] == 1 else "0-based", a, b, a, b), c))
+            elif all(sd is not None for sd in sides):
+                R.ok("EDGE-SIDE", inst + "  (left, right)", fi.key)
+            else:
+                R.unknown("EDGE-SIDE", inst, fi.key, "side of an endpoint not followed")
+    R.floor("EDGE-SIDE add_edge sites", n, 6)
